@@ -10,9 +10,10 @@ Definition semi_clean (st : ostate) : Prop := dry_aux st = [] /\ st_ev st = [].
 Definition bare_single (q : oquirks) (o : op) : bool :=
   match o with
   | LintFile _ => true
-  | ApiLint (TFile _) => q_api_file_no_finalize q
+  | ApiLint (TFile _) => negb (finalizes (api_file_entry q))
   | _ => false
   end.
+Definition is_new_linter (o : op) : bool := match o with NewLinter => true | _ => false end.
 (* lint calls proper / everything that is not a change of the file system *)
 Definition lint_call (o : op) : bool :=
   match o with LintFile _ | LintFiles _ | LintDir _ _ | ApiLint _ => true | _ => false end.
@@ -33,6 +34,9 @@ Fixpoint hist_synced (ip : path) (d : bool) (h : list op) : bool :=
       | _ => negb d && hist_synced ip d r
       end
   end.
+
+Lemma api_file_call_finalizes q p : bare_single q (ApiLint (TFile p)) = false.
+Proof. cbn [bare_single]. rewrite gen_api_file_entry. reflexivity. Qed.
 
 Lemma filter_perm {A} (f : A -> bool) l l' : Permutation l l' -> Permutation (filter f l) (filter f l').
 Proof.
@@ -110,13 +114,12 @@ Section Main.
   (* ---------- Theorem A: history independence ---------- *)
   Lemma step_lint_clean q st fs o :
     lint_call o = true ->
-    q_dry_keeps_storage q = false ->
     (q_lintfile_leaves_evidence q = false \/ bare_single q o = false) ->
     clean st -> coherent st -> ppats st = fs_get fs ign_path ->
     let r := step q (st, fs) o in
     clean (fst (fst r)) /\ coherent (fst (fst r)) /\ ppats (fst (fst r)) = ppats st /\ snd r = freshN q fs o.
   Proof.
-    intros LC D L (R1 & R2 & R3) C S. unfold OrchHist.fresh.
+    intros LC L (R1 & R2 & R3) C S. unfold OrchHist.fresh.
     assert (Ci : coherent (mk_init fs)) by apply coherent_init.
     assert (Si : ppats (mk_init fs) = ppats st) by (symmetry; exact S).
     assert (FIN : forall entry ps, finalizes entry = true ->
@@ -126,7 +129,7 @@ Section Main.
       pose proof (REF q entry fs st ps F C) as (H1 & H2 & H3 & H4 & H5 & H6).
       pose proof (REF q entry fs (mk_init fs) ps F Ci) as (K1 & _).
       cbn zeta in *. rewrite H1, K1, Si, R1, R2, R3. cbn [OrchHist.mk_init init_st dry_rows dry_aux st_ev app].
-      split; [|split; [exact H5|split; [exact H6|reflexivity]]]. unfold clean. rewrite H2, H3, H4, (rows_reset_when_off q D). repeat split. }
+      split; [|split; [exact H5|split; [exact H6|reflexivity]]]. unfold clean. rewrite H2, H3, H4, (gen_rows_reset q). repeat split. }
     assert (SGL : forall entry p,
                (q_lintfile_leaves_evidence q = false \/ finalizes entry = true) ->
                let r := run_single q entry fs st p in
@@ -151,20 +154,22 @@ Section Main.
     - destruct (fs_get fs p).
       + specialize (SGL (api_file_entry q) p). destruct (run_single q (api_file_entry q) fs st p) as [s r].
         destruct (run_single q (api_file_entry q) fs (mk_init fs) p) as [s' r']. cbn [fst snd] in *. apply SGL.
-        destruct L as [L|L]; [now left|]. right. rewrite (api_entry_when_off q L). reflexivity.
+        destruct L as [L|L]; [now left|]. right. now apply negb_false_iff in L.
       + cbn [fst snd]. repeat split; assumption.
     - specialize (FIN api_dir_entry (walk in_dir fs d l)). rewrite gen_api_dir_entry in *. specialize (FIN gen_lint_directory_finalizes).
       destruct (run_entry q "lint_directory" fs st _) as [s r]. destruct (run_entry q "lint_directory" fs (mk_init fs) _) as [s' r']. exact FIN.
   Qed.
 
   Lemma run_clean q h : forall d st fs,
-    q_dry_keeps_storage q = false -> q_ignore_parser_reused q = false ->
+    (q_ignore_parser_reused q = false \/ forallb (fun o => negb (is_new_linter o)) h = true) ->
     (q_lintfile_leaves_evidence q = false \/ forallb (fun o => negb (bare_single q o)) h = true) ->
     hist_synced ign_path d h = true ->
     clean st -> coherent st -> (d = false -> ppats st = fs_get fs ign_path) ->
     snd (run q (st, fs) h) = fresh_run q fs h.
   Proof.
-    induction h as [|o r IH]; intros d st fs D R L HS K C S; cbn [OrchHist.run fresh_run]; [reflexivity|].
+    induction h as [|o r IH]; intros d st fs R L HS K C S; cbn [OrchHist.run fresh_run]; [reflexivity|].
+    assert (Rr : q_ignore_parser_reused q = false \/ forallb (fun o => negb (is_new_linter o)) r = true).
+    { destruct R as [R|R]; [now left|]. right. cbn [forallb] in R. apply andb_true_iff in R. apply R. }
     assert (Lo : q_lintfile_leaves_evidence q = false \/ bare_single q o = false).
     { destruct L as [L|L]; [now left|]. right. cbn [forallb] in L. apply andb_true_iff in L. destruct L as [L _].
       now apply negb_true_iff in L. }
@@ -175,140 +180,51 @@ Section Main.
       { destruct o; cbn [lint_call] in LC; try discriminate; cbn [hist_synced] in HS; apply andb_true_iff in HS;
           destruct HS as [H1 H2]; apply negb_true_iff in H1; split; assumption. }
       destruct Hd as [Hd HSr]. specialize (S Hd).
-      pose proof (step_lint_clean q st fs o LC D Lo K C S) as (K1 & C1 & P1 & E1).
+      pose proof (step_lint_clean q st fs o LC Lo K C S) as (K1 & C1 & P1 & E1).
       pose proof (step_fs V perfile rep_blocks rep_consts rep_st hard_excl ignored ign_path in_dir q st fs o) as Hfs.
       destruct (step q (st, fs) o) as [[s1 f1] x]. cbn [fst snd] in K1, C1, P1, E1, Hfs. subst f1 x.
       assert (Ef : fs_step fs o = fs) by (destruct o; cbn [lint_call] in LC; try discriminate; reflexivity).
-      rewrite Ef in *. specialize (IH d s1 fs D R Lr HSr K1 C1). destruct (run q (s1, fs) r) as [w2 xs]. cbn [fst snd] in *.
+      rewrite Ef in *. specialize (IH d s1 fs Rr Lr HSr K1 C1). destruct (run q (s1, fs) r) as [w2 xs]. cbn [fst snd] in *.
       f_equal. apply IH. intros _. now rewrite P1.
     - destruct o as [p|ps|dd l|t|p c|p|p c|]; cbn [lint_call] in LC; try discriminate.
       + cbn [OrchHist.step fs_step hist_synced] in *. unfold OrchHist.fresh at 1. cbn [OrchHist.step snd].
-        match goal with |- context [run q (st, ?f) r] => specialize (IH (d || (p =? ign_path)) st f D R Lr HS K C); destruct (run q (st, f) r) as [w2 xs] end.
+        match goal with |- context [run q (st, ?f) r] => specialize (IH (d || (p =? ign_path)) st f Rr Lr HS K C); destruct (run q (st, f) r) as [w2 xs] end.
         cbn [fst snd] in *. f_equal. apply IH. intros Hd. apply orb_false_iff in Hd. destruct Hd as [Hd Ht].
         rewrite (S Hd). symmetry. apply (fs_get_untouched ign_path fs (Edit p c)). exact Ht.
       + cbn [OrchHist.step fs_step hist_synced] in *. unfold OrchHist.fresh at 1. cbn [OrchHist.step snd].
-        match goal with |- context [run q (st, ?f) r] => specialize (IH (d || (p =? ign_path)) st f D R Lr HS K C); destruct (run q (st, f) r) as [w2 xs] end.
+        match goal with |- context [run q (st, ?f) r] => specialize (IH (d || (p =? ign_path)) st f Rr Lr HS K C); destruct (run q (st, f) r) as [w2 xs] end.
         cbn [fst snd] in *. f_equal. apply IH. intros Hd. apply orb_false_iff in Hd. destruct Hd as [Hd Ht].
         rewrite (S Hd). symmetry. apply (fs_get_untouched ign_path fs (Delete p)). exact Ht.
       + cbn [OrchHist.step fs_step hist_synced] in *. unfold OrchHist.fresh at 1. cbn [OrchHist.step snd].
-        match goal with |- context [run q (st, ?f) r] => specialize (IH (d || (p =? ign_path)) st f D R Lr HS K C); destruct (run q (st, f) r) as [w2 xs] end.
+        match goal with |- context [run q (st, ?f) r] => specialize (IH (d || (p =? ign_path)) st f Rr Lr HS K C); destruct (run q (st, f) r) as [w2 xs] end.
         cbn [fst snd] in *. f_equal. apply IH. intros Hd. apply orb_false_iff in Hd. destruct Hd as [Hd Ht].
         rewrite (S Hd). symmetry. apply (fs_get_untouched ign_path fs (Add p c)). exact Ht.
-      + cbn [OrchHist.step fs_step hist_synced] in *. unfold OrchHist.fresh at 1. cbn [OrchHist.step snd]. rewrite R.
-        specialize (IH false (mk_init fs) fs D R Lr HS (clean_init _) (coherent_init ignored _)). destruct (run q (mk_init fs, fs) r) as [w2 xs].
+      + assert (Rq : q_ignore_parser_reused q = false).
+        { destruct R as [R|R]; [exact R|]. cbn [forallb is_new_linter negb andb] in R. discriminate R. }
+        cbn [OrchHist.step fs_step hist_synced] in *. unfold OrchHist.fresh at 1. cbn [OrchHist.step snd]. rewrite Rq.
+        specialize (IH false (mk_init fs) fs Rr Lr HS (clean_init _) (coherent_init ignored _)). destruct (run q (mk_init fs, fs) r) as [w2 xs].
         cbn [fst snd] in *. f_equal. apply IH. intros _. reflexivity.
   Qed.
 
   (* every call of every admissible history returns what a fresh object returns on the file system as it is then *)
   Theorem history_independent q fs0 h :
-    q_dry_keeps_storage q = false -> q_lintfile_leaves_evidence q = false -> q_ignore_parser_reused q = false ->
+    q_lintfile_leaves_evidence q = false -> q_ignore_parser_reused q = false ->
     hist_synced ign_path false h = true ->
     snd (run q (mk_init fs0, fs0) h) = fresh_run q fs0 h.
   Proof.
-    intros D L R HS. apply (run_clean q h false (mk_init fs0) fs0 D R (or_introl L) HS (clean_init _) (coherent_init ignored _)).
+    intros L R HS. apply (run_clean q h false (mk_init fs0) fs0 (or_introl R) (or_introl L) HS (clean_init _) (coherent_init ignored _)).
     intros _. reflexivity.
   Qed.
 
-  (* the same without bare single-file calls: only the DRY storage has to be reset *)
-  Theorem history_independent_batch q fs0 h :
-    q_dry_keeps_storage q = false -> q_ignore_parser_reused q = false ->
-    forallb (fun o => negb (bare_single q o)) h = true -> hist_synced ign_path false h = true ->
+  (* the same for EVERY quirk vector - in particular the one claimed for the current tree - on histories without bare
+     single-file calls and without rebuilding the Linter in the same process *)
+  Theorem history_independent_faithful q fs0 h :
+    forallb (fun o => negb (bare_single q o)) h = true -> forallb (fun o => negb (is_new_linter o)) h = true ->
+    hist_synced ign_path false h = true ->
     snd (run q (mk_init fs0, fs0) h) = fresh_run q fs0 h.
   Proof.
-    intros D R L HS. apply (run_clean q h false (mk_init fs0) fs0 D R (or_intror L) HS (clean_init _) (coherent_init ignored _)).
+    intros L R HS. apply (run_clean q h false (mk_init fs0) fs0 (or_intror R) (or_intror L) HS (clean_init _) (coherent_init ignored _)).
     intros _. reflexivity.
-  Qed.
-
-  (* ---------- Theorem C: confinement — with only the DRY storage surviving, everything but the
-     duplicate-code part of every call is what a fresh object returns ---------- *)
-  Definition same_but_blocks (a b : out V) : Prop := o_pf a = o_pf b /\ o_consts a = o_consts b /\ o_st a = o_st b.
-
-  Lemma step_lint_semi q st fs o :
-    lint_call o = true -> q_lintfile_leaves_evidence q = false ->
-    semi_clean st -> coherent st -> ppats st = fs_get fs ign_path ->
-    let r := step q (st, fs) o in
-    semi_clean (fst (fst r)) /\ coherent (fst (fst r)) /\ ppats (fst (fst r)) = ppats st /\ same_but_blocks (snd r) (freshN q fs o).
-  Proof.
-    intros LC L (R2 & R3) C S. unfold OrchHist.fresh.
-    assert (Ci : coherent (mk_init fs)) by apply coherent_init.
-    assert (Si : ppats (mk_init fs) = ppats st) by (symmetry; exact S).
-    assert (FIN : forall entry ps, finalizes entry = true ->
-               let r := run_entry q entry fs st ps in
-               semi_clean (fst r) /\ coherent (fst r) /\ ppats (fst r) = ppats st /\ same_but_blocks (snd r) (snd (run_entry q entry fs (mk_init fs) ps))).
-    { intros entry ps F.
-      pose proof (REF q entry fs st ps F C) as (H1 & H2 & H3 & H4 & H5 & H6).
-      pose proof (REF q entry fs (mk_init fs) ps F Ci) as (K1 & _).
-      cbn zeta in *. rewrite H1, K1, Si, R2, R3. cbn [OrchHist.mk_init init_st dry_rows dry_aux st_ev app].
-      unfold semi_clean, same_but_blocks. cbn [o_pf o_consts o_st]. rewrite H3, H4. repeat split; assumption. }
-    assert (SGL : forall entry p,
-               let r := run_single q entry fs st p in
-               semi_clean (fst r) /\ coherent (fst r) /\ ppats (fst r) = ppats st /\ same_but_blocks (snd r) (snd (run_single q entry fs (mk_init fs) p))).
-    { intros entry p.
-      pose proof (run_single_char q entry fs st p C) as (H0 & H6 & Hf & Hp).
-      pose proof (run_single_char q entry fs (mk_init fs) p Ci) as (_ & _ & Kf & Kp).
-      cbn zeta in *. destruct (finalizes entry) eqn:F.
-      - rewrite (Hf eq_refl), (Kf eq_refl). apply FIN. exact F.
-      - destruct (Hp eq_refl) as (H1 & H2 & H3 & H4). destruct (Kp eq_refl) as (K1 & _).
-        rewrite H1, K1, Si. unfold semi_clean, same_but_blocks. rewrite H3, H4, L. repeat split; assumption. }
-    destruct o as [p|ps|d l|[p|d l]|p c|p|p c|]; cbn [OrchHist.step lint_call] in *; try discriminate.
-    - specialize (SGL "lint_file" p). destruct (run_single q "lint_file" fs st p) as [s r].
-      destruct (run_single q "lint_file" fs (mk_init fs) p) as [s' r']. exact SGL.
-    - specialize (FIN "lint_files" ps gen_lint_files_finalizes). destruct (run_entry q "lint_files" fs st ps) as [s r].
-      destruct (run_entry q "lint_files" fs (mk_init fs) ps) as [s' r']. exact FIN.
-    - specialize (FIN "lint_directory" (walk in_dir fs d l) gen_lint_directory_finalizes).
-      destruct (run_entry q "lint_directory" fs st _) as [s r]. destruct (run_entry q "lint_directory" fs (mk_init fs) _) as [s' r']. exact FIN.
-    - destruct (fs_get fs p).
-      + specialize (SGL (api_file_entry q) p). destruct (run_single q (api_file_entry q) fs st p) as [s r].
-        destruct (run_single q (api_file_entry q) fs (mk_init fs) p) as [s' r']. exact SGL.
-      + cbn [fst snd]. repeat split; assumption.
-    - specialize (FIN api_dir_entry (walk in_dir fs d l)). rewrite gen_api_dir_entry in *. specialize (FIN gen_lint_directory_finalizes).
-      destruct (run_entry q "lint_directory" fs st _) as [s r]. destruct (run_entry q "lint_directory" fs (mk_init fs) _) as [s' r']. exact FIN.
-  Qed.
-
-  Lemma same_but_blocks_refl a : same_but_blocks a a. Proof. repeat split. Qed.
-
-  Lemma run_semi q h : forall d st fs,
-    q_lintfile_leaves_evidence q = false -> q_ignore_parser_reused q = false ->
-    hist_synced ign_path d h = true ->
-    semi_clean st -> coherent st -> (d = false -> ppats st = fs_get fs ign_path) ->
-    Forall2 same_but_blocks (snd (run q (st, fs) h)) (fresh_run q fs h).
-  Proof.
-    induction h as [|o r IH]; intros d st fs L R HS K C S; cbn [OrchHist.run fresh_run]; [constructor|].
-    destruct (lint_call o) eqn:LC.
-    - assert (Hd : d = false /\ hist_synced ign_path d r = true).
-      { destruct o; cbn [lint_call] in LC; try discriminate; cbn [hist_synced] in HS; apply andb_true_iff in HS;
-          destruct HS as [H1 H2]; apply negb_true_iff in H1; split; assumption. }
-      destruct Hd as [Hd HSr]. specialize (S Hd).
-      pose proof (step_lint_semi q st fs o LC L K C S) as (K1 & C1 & P1 & E1).
-      pose proof (step_fs V perfile rep_blocks rep_consts rep_st hard_excl ignored ign_path in_dir q st fs o) as Hfs.
-      destruct (step q (st, fs) o) as [[s1 f1] x]. cbn [fst snd] in K1, C1, P1, E1, Hfs. subst f1.
-      assert (Ef : fs_step fs o = fs) by (destruct o; cbn [lint_call] in LC; try discriminate; reflexivity).
-      rewrite Ef in *. specialize (IH d s1 fs L R HSr K1 C1). destruct (run q (s1, fs) r) as [w2 xs]. cbn [fst snd] in *.
-      constructor; [exact E1|]. apply IH. intros _. now rewrite P1.
-    - destruct o as [p|ps|dd l|t|p c|p|p c|]; cbn [lint_call] in LC; try discriminate.
-      + cbn [OrchHist.step fs_step hist_synced] in *. unfold OrchHist.fresh at 1. cbn [OrchHist.step snd].
-        match goal with |- context [run q (st, ?f) r] => specialize (IH (d || (p =? ign_path)) st f L R HS K C); destruct (run q (st, f) r) as [w2 xs] end.
-        cbn [fst snd] in *. constructor; [apply same_but_blocks_refl|]. apply IH. intros Hd. apply orb_false_iff in Hd. destruct Hd as [Hd Ht].
-        rewrite (S Hd). symmetry. apply (fs_get_untouched ign_path fs (Edit p c)). exact Ht.
-      + cbn [OrchHist.step fs_step hist_synced] in *. unfold OrchHist.fresh at 1. cbn [OrchHist.step snd].
-        match goal with |- context [run q (st, ?f) r] => specialize (IH (d || (p =? ign_path)) st f L R HS K C); destruct (run q (st, f) r) as [w2 xs] end.
-        cbn [fst snd] in *. constructor; [apply same_but_blocks_refl|]. apply IH. intros Hd. apply orb_false_iff in Hd. destruct Hd as [Hd Ht].
-        rewrite (S Hd). symmetry. apply (fs_get_untouched ign_path fs (Delete p)). exact Ht.
-      + cbn [OrchHist.step fs_step hist_synced] in *. unfold OrchHist.fresh at 1. cbn [OrchHist.step snd].
-        match goal with |- context [run q (st, ?f) r] => specialize (IH (d || (p =? ign_path)) st f L R HS K C); destruct (run q (st, f) r) as [w2 xs] end.
-        cbn [fst snd] in *. constructor; [apply same_but_blocks_refl|]. apply IH. intros Hd. apply orb_false_iff in Hd. destruct Hd as [Hd Ht].
-        rewrite (S Hd). symmetry. apply (fs_get_untouched ign_path fs (Add p c)). exact Ht.
-      + cbn [OrchHist.step fs_step hist_synced] in *. unfold OrchHist.fresh at 1. cbn [OrchHist.step snd]. rewrite R.
-        assert (SC : semi_clean (mk_init fs)) by (split; reflexivity).
-        specialize (IH false (mk_init fs) fs L R HS SC (coherent_init ignored _)). destruct (run q (mk_init fs, fs) r) as [w2 xs].
-        cbn [fst snd] in *. constructor; [apply same_but_blocks_refl|]. apply IH. intros _. reflexivity.
-  Qed.
-
-  Theorem stale_state_confined_to_blocks q fs0 h :
-    q_lintfile_leaves_evidence q = false -> q_ignore_parser_reused q = false -> hist_synced ign_path false h = true ->
-    Forall2 same_but_blocks (snd (run q (mk_init fs0, fs0) h)) (fresh_run q fs0 h).
-  Proof.
-    intros L R HS. apply (run_semi q h false); try assumption; [split; reflexivity|apply coherent_init|intros _; reflexivity].
   Qed.
 
   (* ---------- Theorem D: lint operations leave the file system alone ---------- *)
@@ -347,17 +263,17 @@ Section Main.
   Proof. intros H. unfold OrchHistBase.pfout. now apply Permutation_flat_map. Qed.
 
   Lemma run_entry_perm q entry fs st st' ps ps' :
-    q_consts_in_processing_order q = false -> st_perm st st' -> Permutation ps ps' ->
+    st_perm st st' -> Permutation ps ps' ->
     let r := run_entry q entry fs st ps in let r' := run_entry q entry fs st' ps' in
     out_perm (snd r) (snd r') /\ st_perm (fst r) (fst r').
   Proof.
-    intros O (P1 & P2 & P3 & PP & C & C') P. cbn zeta.
+    intros (P1 & P2 & P3 & PP & C & C') P. cbn zeta.
     pose proof (evid_perm (ppats st) fs ps ps' P) as Pe. pose proof (pfout_perm (ppats st) fs ps ps' P) as Pp.
     destruct (finalizes entry) eqn:F.
     - pose proof (REF q entry fs st ps F C) as (H1 & H2 & H3 & H4 & H5 & H6).
       pose proof (REF q entry fs st' ps' F C') as (K1 & K2 & K3 & K4 & K5 & K6).
       cbn zeta in *. rewrite <- PP in *. rewrite H1, K1. split.
-      + unfold out_perm. cbn [o_pf o_blocks o_consts o_st]. unfold consts_view. rewrite O. cbn [andb].
+      + unfold out_perm. cbn [o_pf o_blocks o_consts o_st]. rewrite !gen_consts_view.
         split; [exact Pp|]. split; [apply rep_blocks_perm; now apply Permutation_app|].
         split; [|apply rep_st_perm; now apply Permutation_app].
         rewrite (fv_sort_perm_eq (dry_aux st ++ evid (ppats st) fs ps) (dry_aux st' ++ evid (ppats st) fs ps')); [reflexivity|now apply Permutation_app].
@@ -371,11 +287,11 @@ Section Main.
   Qed.
 
   Lemma run_single_perm q entry fs st st' p :
-    q_consts_in_processing_order q = false -> st_perm st st' ->
+    st_perm st st' ->
     let r := run_single q entry fs st p in let r' := run_single q entry fs st' p in
     out_perm (snd r) (snd r') /\ st_perm (fst r) (fst r').
   Proof.
-    intros O P. cbn zeta. pose proof (run_entry_perm q entry fs st st' [p] [p] O P (Permutation_refl _)) as (Ho & Hs).
+    intros P. cbn zeta. pose proof (run_entry_perm q entry fs st st' [p] [p] P (Permutation_refl _)) as (Ho & Hs).
     unfold OrchHist.run_single. destruct (run_entry q entry fs st [p]) as [s1 o1]. destruct (run_entry q entry fs st' [p]) as [s1' o1'].
     cbn [fst snd] in Ho, Hs. destruct (finalizes entry); [split; assumption|].
     destruct (q_lintfile_leaves_evidence q); cbn [fst snd]; [split; assumption|]. split; [exact Ho|].
@@ -384,24 +300,24 @@ Section Main.
   Qed.
 
   Lemma step_perm q st st' fs o o' :
-    q_consts_in_processing_order q = false -> st_perm st st' -> op_perm o o' ->
+    st_perm st st' -> op_perm o o' ->
     let r := step q (st, fs) o in let r' := step q (st', fs) o' in
     out_perm (snd r) (snd r') /\ st_perm (fst (fst r)) (fst (fst r')) /\ snd (fst r) = snd (fst r').
   Proof.
-    intros O P X. cbn zeta.
+    intros P X. cbn zeta.
     assert (ENT : forall e a b, Permutation a b ->
               let r := run_entry q e fs st a in let r' := run_entry q e fs st' b in
               out_perm (snd (fst r, fs, snd r)) (snd (fst r', fs, snd r'))
               /\ st_perm (fst (fst (fst r, fs, snd r))) (fst (fst (fst r', fs, snd r')))
               /\ snd (fst (fst r, fs, snd r)) = snd (fst (fst r', fs, snd r'))).
-    { intros e a b Hab. cbn zeta. pose proof (run_entry_perm q e fs st st' a b O P Hab) as (Ho & Hs).
+    { intros e a b Hab. cbn zeta. pose proof (run_entry_perm q e fs st st' a b P Hab) as (Ho & Hs).
       cbn [fst snd]. split; [exact Ho|split; [exact Hs|reflexivity]]. }
     assert (SGL : forall e a,
               let r := run_single q e fs st a in let r' := run_single q e fs st' a in
               out_perm (snd (fst r, fs, snd r)) (snd (fst r', fs, snd r'))
               /\ st_perm (fst (fst (fst r, fs, snd r))) (fst (fst (fst r', fs, snd r')))
               /\ snd (fst (fst r, fs, snd r)) = snd (fst (fst r', fs, snd r'))).
-    { intros e a. cbn zeta. pose proof (run_single_perm q e fs st st' a O P) as (Ho & Hs).
+    { intros e a. cbn zeta. pose proof (run_single_perm q e fs st st' a P) as (Ho & Hs).
       cbn [fst snd]. split; [exact Ho|split; [exact Hs|reflexivity]]. }
     assert (TRIV : forall f : fsys, out_perm (snd (st, f, @out_nil V)) (snd (st', f, @out_nil V))
               /\ st_perm (fst (fst (st, f, @out_nil V))) (fst (fst (st', f, @out_nil V)))
@@ -438,13 +354,13 @@ Section Main.
   Qed.
 
   Lemma run_perm q h : forall h' st st' fs,
-    q_consts_in_processing_order q = false -> st_perm st st' -> Forall2 op_perm h h' ->
+    st_perm st st' -> Forall2 op_perm h h' ->
     Forall2 out_perm (snd (run q (st, fs) h)) (snd (run q (st', fs) h')).
   Proof.
-    induction h as [|o r IH]; intros h' st st' fs O P X; inversion X as [|o1 o' r1 r' Xo Xr]; subst; cbn [OrchHist.run]; [constructor|].
-    pose proof (step_perm q st st' fs o o' O P Xo) as (Ho & Hs & Hf).
+    induction h as [|o r IH]; intros h' st st' fs P X; inversion X as [|o1 o' r1 r' Xo Xr]; subst; cbn [OrchHist.run]; [constructor|].
+    pose proof (step_perm q st st' fs o o' P Xo) as (Ho & Hs & Hf).
     destruct (step q (st, fs) o) as [[s1 f1] x]. destruct (step q (st', fs) o') as [[s1' f1'] x']. cbn [fst snd] in Ho, Hs, Hf. subst f1'.
-    specialize (IH r' s1 s1' f1 O Hs Xr). destruct (run q (s1, f1) r) as [w2 xs]. destruct (run q (s1', f1) r') as [w2' xs'].
+    specialize (IH r' s1 s1' f1 Hs Xr). destruct (run q (s1, f1) r) as [w2 xs]. destruct (run q (s1', f1) r') as [w2' xs'].
     cbn [fst snd] in IH |- *. constructor; assumption.
   Qed.
 
@@ -453,20 +369,19 @@ Section Main.
 
   (* permuting the file list of any call, and the order in which directories are walked, permutes the results *)
   Theorem order_independent q fs0 h h' :
-    q_consts_in_processing_order q = false -> Forall2 op_perm h h' ->
+    Forall2 op_perm h h' ->
     Forall2 out_perm (snd (run q (mk_init fs0, fs0) h)) (snd (run q (mk_init fs0, fs0) h')).
-  Proof. intros O X. apply run_perm; [exact O|apply st_perm_init|exact X]. Qed.
+  Proof. intros X. apply run_perm; [apply st_perm_init|exact X]. Qed.
 
   (* C08 as a whole: with the flags off, every call of every admissible history, in whatever order its files are
      passed or discovered, returns a permutation of what a fresh object returns for the canonical order *)
   Theorem results_depend_on_current_state_only q fs0 h h' :
-    q_dry_keeps_storage q = false -> q_lintfile_leaves_evidence q = false -> q_consts_in_processing_order q = false ->
-    q_ignore_parser_reused q = false -> hist_synced ign_path false h = true ->
+    q_lintfile_leaves_evidence q = false -> q_ignore_parser_reused q = false -> hist_synced ign_path false h = true ->
     Forall2 op_perm h h' ->
     Forall2 out_perm (snd (run q (mk_init fs0, fs0) h')) (fresh_run q fs0 h).
   Proof.
-    intros D L O R HS X. rewrite <- (history_independent q fs0 h D L R HS).
-    apply run_perm; [exact O|apply st_perm_init|].
+    intros L R HS X. rewrite <- (history_independent q fs0 h L R HS).
+    apply run_perm; [apply st_perm_init|].
     clear -X. induction X; constructor; [|assumption].
     match goal with H : op_perm _ _ |- _ => destruct H; constructor; now apply Permutation_sym end.
   Qed.
